@@ -70,6 +70,9 @@ func (h *Hooks) OnYield(site string, f func(id uint64)) {
 	h.mu.Unlock()
 }
 
+// eventsUnlocked is for use inside a WaitFor predicate (the lock is already held there).
+func (h *Hooks) eventsUnlocked() []Event { return h.events }
+
 func (h *Hooks) Events() []Event {
 	h.mu.Lock()
 	defer h.mu.Unlock()
